@@ -213,6 +213,9 @@ func debugExprs(repo, name string) {
 		fmt.Println("not found")
 		return
 	}
+	for _, fc := range failConditions(w, f) {
+		fmt.Printf("  FAILS-IFF %s: %s\n", w.instrPos(fc.At), fc)
+	}
 	for _, g := range withLiterals(f) {
 		fmt.Println("==", funcName(g))
 		c := newExprCtx(w)
